@@ -14,12 +14,18 @@ from mc.harness import Result, Sub
 from mc.ref.base import mk_snap, mk_snaps, shell_volumes
 from mc.ref.c04c13 import cond_gr_loops, cond_sq_loops, group_norms
 from mc.ref.grsq import pair_bins
+from mc.ref import c03x as X3
+import json
+
+SEQ_MODS = X3.LIB_MODULES
 
 ASSUMPTIONS = [
     "documented normalisation of conditional g(r): gA = 2 V sum_{i<j} w_ij / (M^2 shell) with M = number of selected "
     "particles for a boolean condition and M = N otherwise; column gr is the unconditional total; bins int(Lmin/2/width)",
-    "complex conditions are complex128 (the dispatch tests dtype == complex128; DESIGN section 4), float conditions "
-    "float64, vectors have as many components as the dimension, tensors are real symmetric d x d",
+    "complex conditions are complex128 or complex64, real ones float64 or int64 (values exact in every storage type); vectors have as "
+    "many components as the dimension, tensors are real symmetric d x d",
+    "C13.sequence: the result of a call must not depend on the calls made before it in the same process (oracle: the same call made "
+    "first in a process whose library modules were freshly imported; that single call is what the other sub-checks compare with the definition)",
     "placements with a pair closer than 1e-9 to a bin edge are screened out before the run",
     "gA_norm is only demanded for float scalars with non-zero variance (the documented formula is 0/0 otherwise)",
     "conditional S(q): per-vector values and the per-|q| averages are compared with tolerance 0.5e-8 + 1e-9 rel (the "
@@ -214,6 +220,109 @@ def edge_ambiguous(pos, H, ppp, w):
         if amb is not None and (k < nb or amb < nb):
             return True
     return False
+
+
+# ----------------------------------------------------------------------------------------- C13.sequence
+# Letters are complete argument tuples chosen so that pairs of them collide in plausible INCOMPLETE memo keys: same number of bins /
+# different bin width (g0-g1), same bins and width / different dimension (g0-g2), same cell diagonal / different tilt (g0-g3), same
+# geometry / different condition kind or values (g0-g4-g5), same wave-vector list / different box (s0-s1), different dimension (s0-s2),
+# different condition (s0-s3), same box / different list (s0-s4).
+def _seq_letters():
+    L = []
+    H3 = np.diag([8.0, 9.0, 10.0])
+    L.append({"id": "g0", "fn": "gr", "d": 3, "H": H3.tolist(), "w": 0.25, "kind": "float", "ppp": [1, 1, 1]})           # 16 bins
+    L.append({"id": "g1", "fn": "gr", "d": 3, "H": np.diag([9.6, 10.0, 11.0]).tolist(), "w": 0.3, "kind": "float", "ppp": [1, 1, 1]})  # 16 bins
+    L.append({"id": "g2", "fn": "gr", "d": 2, "H": np.diag([8.0, 9.0]).tolist(), "w": 0.25, "kind": "float", "ppp": [1, 1]})
+    L.append({"id": "g3", "fn": "gr", "d": 3, "H": A.hmat_tri([8.0, 9.0, 10.0], [1.5, 1.0, -2.0]).tolist(), "w": 0.25, "kind": "float", "ppp": [1, 1, 1]})
+    L.append({"id": "g4", "fn": "gr", "d": 3, "H": H3.tolist(), "w": 0.25, "kind": "complex", "ppp": [1, 1, 1]})
+    L.append({"id": "g5", "fn": "gr", "d": 3, "H": H3.tolist(), "w": 0.25, "kind": "bool", "ppp": [1, 0, 1]})
+    L.append({"id": "s0", "fn": "sq", "d": 3, "L": [8.0, 8.0, 10.0], "q": "six", "kind": "float"})
+    L.append({"id": "s1", "fn": "sq", "d": 3, "L": [7.0, 9.0, 11.0], "q": "six", "kind": "float"})
+    L.append({"id": "s2", "fn": "sq", "d": 2, "L": [8.0, 8.0], "q": "six", "kind": "float"})
+    L.append({"id": "s3", "fn": "sq", "d": 3, "L": [8.0, 8.0, 10.0], "q": "six", "kind": "complex"})
+    L.append({"id": "s4", "fn": "sq", "d": 3, "L": [8.0, 8.0, 10.0], "q": "pyth", "kind": "bool"})
+    return L
+
+
+SEQ_LETTERS = _seq_letters()
+SEQ_N = 5
+
+
+def _seq_args(seed, lt):
+    d = lt["d"]
+    H = np.array(lt["H"], float) if lt["fn"] == "gr" else np.diag(lt["L"])
+    pos = (np.array(A.generic_points(seed, SEQ_N, d, tag=f"c13q{d}")) @ H)
+    al = letters(lt["kind"], d)
+    dt = {"bool": bool, "float": np.float64, "complex": np.complex128}[lt["kind"]]
+    pick = {"bool": [1, 0, 1, 1, 0], "float": [0, 1, 2, 3, 1], "complex": [0, 1, 2, 1, 3]}[lt["kind"]]
+    cond = np.array([al[k] for k in pick], dtype=dt)
+    return pos, H, cond
+
+
+def _seq_call(seed, lt):
+    from PyMatterSim.static.gr import conditional_gr
+    from PyMatterSim.static.sq import conditional_sq
+
+    pos, H, cond = _seq_args(seed, lt)
+    snap = mk_snap(pos, H, [1] * SEQ_N)
+    if lt["fn"] == "gr":
+        res = conditional_gr(snap, cond, conditiontype=None, ppp=np.array(lt["ppp"]), rdelta=lt["w"])
+        return [X3.frame_to_json(res)]
+    per, ave = conditional_sq(snap, np.array(qlist(lt["q"], lt["d"]), dtype=int), cond)
+    return [X3.frame_to_json(per), X3.frame_to_json(ave)]
+
+
+def _seq_eval(case):
+    return [_seq_call(case["seed"], SEQ_LETTERS[k]) for k in case["word"]]
+
+
+def gen_sequence(tier, seed):
+    depth = 2 if tier == "quick" else 3
+    nl = len(SEQ_LETTERS)
+    for Lw in range(1, depth + 1):
+        for word in itertools.product(range(nl), repeat=Lw):
+            if Lw == 3 and len(set(word)) == 1:
+                continue
+            yield {"part": "sequence", "word": list(word), "seed": seed}
+
+
+_SEQ_FRESH = {}
+
+
+def run_sequence(case):
+    R = Result()
+    seed = case["seed"]
+    names = [SEQ_LETTERS[k]["id"] for k in case["word"]]
+    payload = X3.fresh_child(_seq_eval, case, SEQ_MODS)
+    if "err" in payload:
+        R.fail(f"call sequence {names} raised {payload['err']}", sig={"part": "sequence", "exception": True})
+        return R
+    for k in set(case["word"]):
+        if (seed, k) not in _SEQ_FRESH:
+            one = X3.fresh_child(_seq_eval, {"seed": seed, "word": [k]}, SEQ_MODS)
+            if "err" in one:
+                R.fail(f"single call {SEQ_LETTERS[k]['id']} raised {one['err']}", sig={"part": "sequence", "exception": True})
+                return R
+            _SEQ_FRESH[(seed, k)] = one["ok"][0]
+    states = set()
+    for pos_, (k, got) in enumerate(zip(case["word"], payload["ok"])):
+        ref = _SEQ_FRESH[(seed, k)]
+        lt = SEQ_LETTERS[k]
+        same = len(got) == len(ref) and all(
+            g["columns"] == r["columns"] and np.array_equal(np.array(g["values"]), np.array(r["values"]), equal_nan=True) for g, r in zip(got, ref))
+        if not same:
+            prev = names[:pos_]
+            R.fail(f"call #{pos_ + 1} ({lt['id']}: {lt['fn']}, d={lt['d']}, kind={lt['kind']}) of the sequence {names} differs from the same call made first "
+                   f"in a fresh process (earlier calls: {prev})",
+                   sig={"part": "sequence", "fn": lt["fn"], "position": "later" if pos_ else "first"},
+                   exp=ref[0]["values"][:6], obs=got[0]["values"][:6] if got else None)
+        states.add(json.dumps(got, sort_keys=True)[:4000])
+    R.outcome(sorted(states), nd=9)
+    R.states = len(case["word"]) + 1
+    R.transitions = len(case["word"])
+    R.elem = sum(len(t["values"]) for g in payload["ok"] for t in g)
+    R.nontrivial = True
+    return R
 
 
 def gsig(case, **kw):
@@ -778,6 +887,12 @@ def subs(tier, seed):
     out.append(Sub("C13.sq.reduce", gen_sq_reduce, run_sq_reduce,
                    rule=f"every surjective type map of N=4{',5' if tier == 'thorough' else ''} particles onto K=1..{'min(N,5)' if tier == 'thorough' else 3} species: conditional_sq(types==a) average == sq()['Sqaa'] within the "
                         "documented 1e-6 rounding; A = 1 (float, complex) == sq()['Sq']"))
+    out.append(Sub("C13.sequence", gen_sequence, run_sequence,
+                   rule=f"explicit-state search over call words of length <= {2 if tier == 'quick' else 3} over {len(SEQ_LETTERS)} complete argument tuples of "
+                        "conditional_gr / conditional_sq (pairs collide in plausible incomplete memo keys: same bin count / different width, same bins / "
+                        "other dimension, same diagonal / other tilt, same geometry / other condition kind, same wave-vector list / other box); every word "
+                        "in a forked child whose library modules were re-imported; every call must return bit for bit what the same call returns when "
+                        "made first", bounds={"letters": len(SEQ_LETTERS), "depth": 2 if tier == "quick" else 3}))
     out.append(Sub("C13.sq.vector_sum", gen_sq_vsum, run_sq_vsum,
                    rule="every assignment of the real / complex vector alphabets: S(vector) == sum_c S(component c as scalar), per wave vector"))
     return out
